@@ -18,6 +18,16 @@ from ..provider.location import FieldLoc, TypeHintLoc
 from .provider_template import ConverterProvider
 
 
+class _VarRef:
+    """Rendered by ``str(Signature)`` as a variable name, so a default value is passed via namespace instead of its repr"""
+
+    def __init__(self, name: str):
+        self._name = name
+
+    def __repr__(self):
+        return self._name
+
+
 class BuiltinConverterProvider(ConverterProvider):
     def __init__(self, *, name_sanitizer: NameSanitizer = BuiltinNameSanitizer()):
         self._name_sanitizer = name_sanitizer
@@ -94,7 +104,17 @@ class BuiltinConverterProvider(ConverterProvider):
         coercer_var = self._register_mangled(namespace, "coercer", coercer)
 
         no_types_signature = signature.replace(
-            parameters=[param.replace(annotation=Signature.empty) for param in signature.parameters.values()],
+            parameters=[
+                param.replace(
+                    annotation=Signature.empty,
+                    default=(
+                        Signature.empty
+                        if param.default is Signature.empty else
+                        _VarRef(self._register_mangled(namespace, f"default_{param.name}", param.default))
+                    ),
+                )
+                for param in signature.parameters.values()
+            ],
             return_annotation=Signature.empty,
         )
         parameters = tuple(signature.parameters.values())
